@@ -45,12 +45,15 @@ def do_verify(sid, wt=None):
         made = True
     clean = "git checkout -q -- . && git clean -fdq -e _out -e target"
     demo_cmd = meta.get("demo_cmd", "cargo test --offline")
-    demo_cmd = re.sub(r"cd\s+/tmp/mut/\w+\s*&&\s*", "", demo_cmd)
+    demo_cmd = re.sub(r"cd\s+/tmp/mut\d*/\w+\s*&&\s*", "", demo_cmd)
+    demo_cmd = re.split(r"\s{2,}[#(]", demo_cmd)[0].strip()      # trailing explanations
     demo_cmd = re.sub(r"git apply\s+\S+\s*&&\s*", "", demo_cmd)
     res = {}
     sh(clean, cwd=wt)
     rc, out = sh("git apply %s && %s" % (os.path.join(d, "demo.diff"), demo_cmd), cwd=wt)
-    res["head_plus_demo_passes"] = (rc == 0 and "test result: ok" in out and not re.search(r"test result: ok\. 0 passed", out))
+    is_script = "cargo test" not in demo_cmd
+    res["head_plus_demo_passes"] = (rc == 0 and ("PASS" in out or "pass" in out or "ok" in out.lower())) if is_script else \
+        (rc == 0 and "test result: ok" in out and not re.search(r"test result: ok\. 0 passed", out))
     res["head_plus_demo_tail"] = out[-300:]
     sh(clean, cwd=wt)
     rc, out = sh("git apply %s && cargo test --offline 2>&1" % os.path.join(d, "patch.diff"), cwd=wt)
@@ -58,7 +61,7 @@ def do_verify(sid, wt=None):
     res["suite_with_change"] = m.group(0) if m else out[-300:]
     res["suite_passes_with_change"] = bool(m and m.group(1) == "ok" and int(m.group(2)) >= 49 and int(m.group(3)) == 0)
     rc, out = sh("git apply %s && %s" % (os.path.join(d, "demo.diff"), demo_cmd), cwd=wt)
-    res["demo_fails_with_change"] = (rc != 0 and ("FAILED" in out or "panicked" in out))
+    res["demo_fails_with_change"] = (rc != 0) if is_script else (rc != 0 and ("FAILED" in out or "panicked" in out))
     res["demo_with_change_tail"] = out[-400:]
     sh(clean, cwd=wt)
     if made:
